@@ -70,7 +70,9 @@ STRAND_PROP = {
 
 SHAPES = [("cat", "cat")] * 4 + [("cat", "mr"), ("mr", "cat"), ("mr", "mr"), ("cai", "cac"),
                                   ("cac", "cai"), ("cat_date", "cat"), ("cat", "text"),
-                                  ("na", "cat")]
+                                  ("na", "cat"),
+                                  # 3-D: one slice per table element, each sorted by its own values
+                                  ("cat", "cat", "cat"), ("mr", "cat", "mr"), ("cat", "mr", "cat")]
 
 
 @st.composite
@@ -225,15 +227,27 @@ def reference_values(case, R, orc_dims, strand):
 
 
 def judge(case, rec):
+    """Every partition of the cube is judged (a 3-D response yields one slice per table
+    element, all sorted by the SAME transform but each by its own values)."""
     sv, q = case["survey"], case["query"]
     resp = zz9enc.encode(sv, q)
     pop = case["population"]
-    R = lib.cube(resp, case["base"], population=pop).partitions[0]
-    T = lib.cube(resp, case["full"], population=pop).partitions[0]
-    lib.warm(T, case.get("warmup"))
+    Rs = lib.cube(resp, case["base"], population=pop).partitions
+    Ts = lib.cube(resp, case["full"], population=pop).partitions
     dims = apparent_dims(sv, q)
+    tkeys = dims[0].keys if len(dims) == 3 else [None]
+    if len(dims) == 3:
+        rec.event("3-D: %d slices" % len(Ts))
+        if len(Ts) > 1:
+            rec.nontrivial()
+    for R, T, tkey in zip(Rs, Ts, tkeys):
+        _judge_part(case, rec, R, T, Oracle(sv, q, table_key=tkey), dims[-2:])
+
+
+def _judge_part(case, rec, R, T, orc, dims):
+    sv, q = case["survey"], case["query"]
+    lib.warm(T, case.get("warmup"))
     strand = len(dims) == 1
-    orc = Oracle(sv, q)
     axis = case["axis"]
     order = case["order"]
     rec.event("shape=" + "x".join(case["shape"]))
